@@ -67,6 +67,52 @@ def gen_cases(ctx, n, i64, rgb_any, tag):
     return cases, meta
 
 
+def walk_extra_cases(ctx):
+    """cases the document generator does not produce: shapes that do NOT fit (every path must still be
+    mirrored by its model, error class included), truncated / mutated byte strings, mixed containers"""
+    rng = ctx.rng
+    out = []
+    n = ctx.scale(600, 5000)
+    shapes_scalar = ["str", "bool", "u8", "u16", "u32", "u64", "i8", "i16", "i32", "i64", "f32", "f64", "date", "dh", "any", "ign",
+                     "opt(str)", "opt(any)", "seq(any)", "seq(str)", "seq(u16)", "map(any)", "map(str)", "tup(any,any)", "tup(str,seq(u8))",
+                     "tup(any)", "tup(any,any,any)", "enum(%s,%s)" % (hx("aaa"), hx("rgb")), "seq(ign)", "map(ign)", "seq(opt(any))"]
+    for _ in range(n):
+        doc = D.gen_doc(rng, ops=False, i64=rng.random() < 0.2)
+        fl = rng.choice(["eu4", "raw"])
+        ids = doc["ids"]
+        known = set(x for x in ids if rng.random() < 0.7)
+        strat = rng.choice(["error", "stringify", "ignore"])
+        b = D.render_bin(doc, fl)
+        r = rng.random()
+        if r < 0.25 and len(b) > 2:
+            b = b[:rng.randrange(1, len(b))]                        # truncated
+        elif r < 0.45 and len(b) > 2:
+            i = rng.randrange(len(b))
+            b = b[:i] + bytes([rng.choice([0, 1, 3, 4, 0x0c, 0x0e, 0x0f, 0x14, 0x17, 0x43, 2, rng.randrange(256)])]) + b[i + 1:]
+        elif r < 0.55 and len(b) > 4:
+            i = rng.randrange(0, len(b), 2)
+            b = b[:i] + rng.choice([D.OPEN, D.CLOSE, D.EQ, D.OPEN + D.CLOSE, D.tok(0x243), D.tok(0x0e) + b"\x01"]) + b[i:]
+        # a root struct whose field shapes are drawn at random: mostly unfit
+        keys = []
+        for f in doc["f"]:
+            if f["k"] not in keys:
+                keys.append(f["k"])
+        rng.shuffle(keys)
+        fields = []
+        for k in keys[:rng.randrange(0, 5)]:
+            mode = rng.choice(["", "", "*", "!"])
+            fields.append(hx(k) + mode + ":" + rng.choice(shapes_scalar))
+        if rng.random() < 0.3:
+            shape = "map(%s)" % rng.choice(shapes_scalar)
+        else:
+            shape = "struct(%s)" % ",".join(fields)
+        res = D.resolver_spec(ids, known, "map")
+        for p in ("tape", "slice", "reader:%d:%s" % (rng.choice([32, 40, 64, 32768]), rng.choice(["-", "1*", "3,5*", "2,7,1"]))):
+            out.append("\t".join(["de.model.bin", p, strat, res, fl, shape, hx(b)]))
+        ctx.count("walk_extra_docs")
+    return out
+
+
 def py_lines_resolver(raw):
     """spec of BasicTokenResolver::from_text_lines: lines `0x<hex> <name>`; returns dict or None (error)"""
     out = {}
@@ -89,10 +135,17 @@ def py_lines_resolver(raw):
     return out
 
 
+def to_model(cases):
+    """the same case for the extracted walk models (kind de.model.bin; the harness runs it as de.bin)"""
+    return ["de.model.bin" + c[len("de.bin"):] for c in cases if c.startswith("de.bin\t")]
+
+
 def run(ctx):
     rng = ctx.rng
     nt = lambda c, i: i.startswith("(")
+    walk = []
     cases, meta = gen_cases(ctx, ctx.scale(4000, 30000), i64=False, rgb_any=False, tag="main")
+    walk += to_model(cases)
     impl, _ = ctx.correspond("paths", cases, nontrivial=nt, model=False)
     base = len(impl) - len(cases)
     for k, (exp, g, p, doc, sh) in enumerate(meta):
@@ -102,6 +155,7 @@ def run(ctx):
 
     # I64 tokens (C03 finding B shows through the tape path)
     cases, meta = gen_cases(ctx, ctx.scale(250, 2000), i64=True, rgb_any=False, tag="i64")
+    walk += to_model(cases)
     impl, _ = ctx.correspond("i64", cases, nontrivial=nt, model=False)
     base = len(impl) - len(cases)
     for k, (exp, g, p, doc, sh) in enumerate(meta):
@@ -117,6 +171,7 @@ def run(ctx):
 
     # rgb into a dynamically shaped target (finding C: the on-demand path has no RGB arm in deserialize_any)
     cases, meta = gen_cases(ctx, ctx.scale(250, 2000), i64=False, rgb_any=True, tag="rgbany")
+    walk += to_model(cases)
     impl, _ = ctx.correspond("rgb-any", cases, nontrivial=nt, model=False)
     base = len(impl) - len(cases)
     for k, (exp, g, p, doc, sh) in enumerate(meta):
@@ -132,6 +187,7 @@ def run(ctx):
     # fixed replay of C
     col = D.tok(0x1000) + D.EQ + D.tok(0x243) + D.OPEN + b"".join(D.tok(0x14) + struct.pack("<I", c) for c in (110, 27, 27)) + D.CLOSE
     fc = ["\t".join(["de.bin", p, "error", "map:1000=" + hx("color"), "eu4", "struct(%s:any)" % hx("color"), hx(col)]) for p in ("tape", "slice", "reader:64:-")]
+    walk += to_model(fc)
     impl, _ = ctx.correspond("known-deviations", fc, nontrivial=nt, model=False)
     a, b, c = impl[-3:]
     if not (a == b == c):
@@ -167,6 +223,12 @@ def run(ctx):
     for k, e in enumerate(rexp):
         if impl[base + k] != e:
             ctx.fail("resolver-lines", "from_text_lines answers %s, the lines say %s" % (impl[base + k], e), [rcases[k]], [impl[base + k]], e)
+
+    # the three deserializer walks inside the Coq model (BinDeTape / BinDeOndemand / BinDeReader over
+    # SerdeShape.walk, run from the bytes: tape parser, lexer and streaming reader are the C03/C08 models)
+    walk += walk_extra_cases(ctx)
+    ctx.count("walk_model_cases", len(walk))
+    ctx.correspond("walk_model", walk, nontrivial=nt)
 
     # scalar level: extracted Serde.bin_scalar against the real on-demand path
     from props import descalar
